@@ -17,9 +17,10 @@ pub fn run(suite: &str, rng: &mut Rng, ctx: &mut Ctx) {
 // ------------------------------------------------------------------ malformed input (C06)
 
 /// structure-aware corruptions of a replay, returning the file bytes
-fn corrupt_structured(r: &Replay, rng: &mut Rng) -> (Vec<u8>, String) {
+fn corrupt_structured(r: &Replay, rng: &mut Rng, kind: u64) -> (Vec<u8>, String) {
     let pad = Pad::default(); let mut r = r.clone(); let mut sizes = table(&r, &pad); let mut body = body_events(&r, &pad); let mut junk: Vec<u8> = vec![];
-    let kind = rng.next() % 16;
+    // the frame id that is open at position i of the body
+    let id_at = |body: &Vec<Vec<u8>>, i: usize, r: &Replay| -> i32 { body[..i].iter().rev().find(|e| matches!(e[0], 0x37..=0x3C) && e[0] != 0x39 && e.len() > 4).map(|e| i32::from_be_bytes(e[1..5].try_into().unwrap())).unwrap_or_else(|| r.frames.first().map_or(-123, |f| f.id)) };
     let pick = |rng: &mut Rng, n: usize| (rng.next() as usize) % n.max(1);
     let name = match kind {
         0 if !body.is_empty() => { let i = pick(rng, body.len()); body.remove(i); "delete-event" }
@@ -32,8 +33,9 @@ fn corrupt_structured(r: &Replay, rng: &mut Rng) -> (Vec<u8>, String) {
             let (code, size) = [(0x3Au8, 8u16), (0x3B, 37), (0x3C, 4), (0x3D, 20), (0x10, 516), (0x10, 100)][(rng.next() % 6) as usize];
             if !sizes.iter().any(|s| s.0 == code) { sizes.push((code, size)); }
             let sz = sizes.iter().find(|s| s.0 == code).unwrap().1 as usize;
-            let mut e = vec![code]; e.extend(rng.bytes(sz)); if rng.next() % 2 == 0 && sz >= 4 { let id = r.frames.first().map_or(-123, |f| f.id); e[1..5].copy_from_slice(&id.to_be_bytes()); }
-            let i = pick(rng, body.len() + 1); body.insert(i, e); "illegal-event-for-version" }
+            let i = pick(rng, body.len() + 1);
+            let mut e = vec![code]; e.extend(rng.bytes(sz)); if rng.next() % 4 != 0 && sz >= 4 { let id = id_at(&body, i, &r); e[1..5].copy_from_slice(&id.to_be_bytes()); }
+            body.insert(i, e); "illegal-event-for-version" }
         7 => { let i = pick(rng, sizes.len()); match rng.next() % 4 { 0 => sizes[i].1 = sizes[i].1.wrapping_add(1), 1 => sizes[i].1 = sizes[i].1.saturating_sub(1), 2 => sizes[i].1 = 0, _ => { sizes.remove(i); } } "payload-table-edit" }
         8 => { let e = (0x35u8, 4u16); sizes.push(e); let mut ev = vec![0x35]; ev.extend(rng.bytes(4)); body.insert(0, ev); "duplicate-payloads-event" }
         9 => { let mut ev = vec![0x36]; ev.extend(&r.start_block); let i = pick(rng, body.len() + 1); body.insert(i, ev); "duplicate-start" }
@@ -81,14 +83,17 @@ fn incremental(b: &[u8]) -> Result<String, String> {
 }
 
 fn mal(rng: &mut Rng, ctx: &mut Ctx) {
-    let go = GenOpts { max_frames: 5, newer: false };
+    let go = GenOpts { max_frames: 5, newer: false, force: None };
     for k in 0..ctx.n {
+        // structured corruptions walk the 16 kinds; events illegal for the version get every framing regime in turn
+        let kind = if k % 4 == 1 { 6 } else { rng.next() % 16 };
+        let go = if kind == 6 { GenOpts { max_frames: 4, newer: false, force: Some([(1u8,0u8,0u8),(2,1,0),(2,2,0),(2,255,3),(3,0,0),(3,6,0),(0,1,0),(2,5,0)][(k / 4) % 8]) } } else { GenOpts { max_frames: 5, newer: false, force: None } };
         let (r, tags) = gen_replay(rng, k, &go);
-        let (b, kind) = if k % 3 == 0 { let b = encode(&r); corrupt_bytes(&b, rng) } else { corrupt_structured(&r, rng) };
+        let (b, kind) = if k % 3 == 0 && kind != 6 { let b = encode(&r); corrupt_bytes(&b, rng) } else { corrupt_structured(&r, rng, kind) };
         let skip = k % 4 == 1; let hash = k % 5 == 2;
-        ctx.starting(&format!("read {} {} {}", skip as u8, hash as u8, hex(&b)));
+        ctx.starting(&read_cmd(skip, hash, &b));
         let (line, _) = read_line(&b, skip, hash);
-        let mut c = Case::new(format!("read {} {} {}", skip as u8, hash as u8, hex(&b)), line.clone());
+        let mut c = Case::new(read_cmd(skip, hash, &b), line.clone());
         if line == "panic" || line.starts_with("panic ") { c.fail("C06", format!("one-shot reader panicked ({}; skip={}, hash={})", kind, skip, hash)); }
         let inc = std::panic::catch_unwind(|| incremental(&b));
         match inc { Err(_) => c.fail("C06", format!("incremental reader panicked ({})", kind)), Ok(Err(e)) if e == "no-progress" => c.fail("C06", "parse_event returned without consuming input"), _ => {} }
@@ -100,7 +105,7 @@ fn mal(rng: &mut Rng, ctx: &mut Ctx) {
 // ------------------------------------------------------------------ truncation (C07)
 
 fn prefix(rng: &mut Rng, ctx: &mut Ctx) {
-    let go = GenOpts { max_frames: 3, newer: false };
+    let go = GenOpts { max_frames: 3, newer: false, force: None };
     for k0 in 0..ctx.n { let k = k0 + ctx.seed as usize;
         // one file per framing regime in turn, finished (Game End present), varied container shape
         let (mut r, tags) = loop { let kk = k * 7 + (rng.next() % 50) as usize; let (r, t) = gen_replay(rng, kk, &go); let reg = ["regimeA", "regimeB", "regimeC"][k % 3]; if t[7] == reg && r.end.is_some() { break (r, t); } };
@@ -109,7 +114,7 @@ fn prefix(rng: &mut Rng, ctx: &mut Ctx) {
         for skip in [false, true] {
             let mut bad: Vec<usize> = vec![];
             for n in 0..b.len() {
-                ctx.starting(&format!("read {} 0 {}", skip as u8, hex(&b[..n])));
+                ctx.starting(&read_cmd(skip, false, &b[..n]));
                 let o = read_opts(skip, n % 2 == 0);
                 let res = std::panic::catch_unwind(|| slippi::read(Cursor::new(&b[..n]), Some(&o)));
                 match res { Ok(Err(_)) => {} _ => bad.push(n) }
@@ -139,7 +144,7 @@ fn game_sig(g: &Game) -> String { format!("{} | {} | {} | {:?} | {:?} | {:?}", d
 
 fn pprefix(rng: &mut Rng, ctx: &mut Ctx) {
     let comps = [None, Some(arrow2::io::ipc::write::Compression::LZ4), Some(arrow2::io::ipc::write::Compression::ZSTD)];
-    let go = GenOpts { max_frames: 3, newer: false };
+    let go = GenOpts { max_frames: 3, newer: false, force: None };
     for k0 in 0..ctx.n { let k = k0 + ctx.seed as usize;
         let (r, tags) = loop { let kk = k * 5 + (rng.next() % 60) as usize; let (r, t) = gen_replay(rng, kk, &go); if !slots_of(&r.start_block).is_empty() && (k % 3 != 2 || r.frames.is_empty() || true) { break (r, t); } };
         let mut r = r; if k % 4 == 3 { r.frames.clear(); }
@@ -194,7 +199,7 @@ fn permute_body(evs: &mut Vec<Vec<u8>>, rng: &mut Rng) {
 }
 
 fn irr(rng: &mut Rng, ctx: &mut Ctx) {
-    let go = GenOpts { max_frames: if ctx.thorough { 12 } else { 5 }, newer: false };
+    let go = GenOpts { max_frames: if ctx.thorough { 12 } else { 5 }, newer: false, force: None };
     for k in 0..ctx.n {
         let (mut r, mut tags) = gen_replay(rng, k, &go);
         let pad = Pad::default();
@@ -216,13 +221,13 @@ fn irr(rng: &mut Rng, ctx: &mut Ctx) {
         tags.push(format!("irr{}", what));
         // C08: same game as without the irregularities
         let (l, g) = read_line(&x, false, false);
-        let mut c = Case::new(format!("read 0 0 {}", hex(&x)), l.clone()); c.tags = tags.clone();
+        let mut c = Case::new(read_cmd(false, false, &x), l.clone()); c.tags = tags.clone();
         if l != bl { c.fail("C08", format!("game differs from the one parsed without the tolerated irregularities: {} vs {}", &l[..l.len().min(200)], &bl[..bl.len().min(200)])); if what == 2 { c.fail("C17", "permuted frame body changes the parsed game"); } }
         if let (Some(g), Some(bg)) = (&g, &bg) { if start_json(&g.start) != start_json(&bg.start) || end_json(&g.end) != end_json(&bg.end) || g.metadata != bg.metadata { c.fail("C08", "start/end/metadata differ from the regular parse"); } }
         ctx.push(c);
         if r.end.is_some() && k % 3 == 0 {
             let (sl, sg) = read_line(&x, true, k % 2 == 0); let (bsl, _) = read_line(&base, true, false);
-            let mut c = Case::new(format!("read 1 {} {}", (k % 2 == 0) as u8, hex(&x)), sl.clone()); c.tags = vec!["irr-skip".into()];
+            let mut c = Case::new(read_cmd(true, (k % 2 == 0), &x), sl.clone()); c.tags = vec!["irr-skip".into()];
             if junk.is_empty() { if sl.replace(&format!("hashed=(some {})", x.len()), "hashed=none") != bsl { c.fail("C08", "skip-frames read differs from the one without the tolerated irregularities"); }
                 if let (Some(sg), Some(g)) = (&sg, &g) { if start_json(&sg.start) != start_json(&g.start) || end_json(&sg.end) != end_json(&g.end) || sg.metadata != g.metadata { c.fail("C10", "skip-frames start/end/metadata differ from the full parse (replay with unknown events / permuted bodies)"); } } }
             ctx.push(c);
@@ -252,14 +257,14 @@ pub fn check_c17(g: &Game, y: &[u8], c: &mut Case) {
 // ------------------------------------------------------------------ newer versions, longer payloads (C08) and writer refusal (C09)
 
 fn newer(rng: &mut Rng, ctx: &mut Ctx) {
-    let go = GenOpts { max_frames: 4, newer: true };
+    let go = GenOpts { max_frames: 4, newer: true, force: None };
     for k in 0..ctx.n {
         let (mut r, mut tags) = gen_replay(rng, k, &go);
         r.double_end = false; // the duplicated-Game-End heuristic compares against the known size; not a known field
         let pad = Pad { gstart: (rng.next() % 40) as usize, pre: (rng.next() % 9) as usize, post: (rng.next() % 9) as usize, gend: (rng.next() % 5) as usize, fstart: (rng.next() % 6) as usize, item: (rng.next() % 7) as usize, fend: (rng.next() % 5) as usize };
         let base = encode(&r); let x = encode_padded(&r, &pad);
         let (bl, bg) = read_line(&base, false, false); let (l, g) = read_line(&x, false, false);
-        let mut c = Case::new(format!("read 0 0 {}", hex(&x)), l.clone()); tags.push("padded".into()); c.tags = tags;
+        let mut c = Case::new(read_cmd(false, false, &x), l.clone()); tags.push("padded".into()); c.tags = tags;
         match (&g, &bg) { (Some(g), Some(bg)) => {
             if l != bl { c.fail("C08", "frame data differs when known events carry extra trailing bytes"); }
             if start_json(&g.start) != start_json(&bg.start) { c.fail("C08", "Game Start fields differ when the block carries extra trailing bytes"); }
@@ -269,7 +274,7 @@ fn newer(rng: &mut Rng, ctx: &mut Ctx) {
         ctx.push(c);
         if r.end.is_some() {
             let hash = k % 2 == 0; let (sl, sg) = read_line(&x, true, hash);
-            let mut c = Case::new(format!("read 1 {} {}", hash as u8, hex(&x)), sl.clone()); c.tags = vec!["padded-skip".into()];
+            let mut c = Case::new(read_cmd(true, hash, &x), sl.clone()); c.tags = vec!["padded-skip".into()];
             match (&sg, &g) { (Some(sg), Some(g)) => { if start_json(&sg.start) != start_json(&g.start) || end_json(&sg.end) != end_json(&g.end) || sg.metadata != g.metadata { c.fail("C10", "skip-frames start/end/metadata differ from the full parse (newer version, longer payloads)"); }
                     if sg.frames.id.len() != 0 { c.fail("C10", "skip-frames returned frames"); }
                     if hash { let xx = format!("xxh3:{:016x}", xxhash_rust::xxh3::xxh3_64(&x)); if sg.hash.as_deref() != Some(xx.as_str()) { c.fail("C11", "skip-frames hash differs from XXH3-64 of the file (newer version, longer payloads)"); } } }
@@ -286,10 +291,10 @@ fn maxver(rng: &mut Rng, ctx: &mut Ctx) {
     if ctx.thorough { for a in 0..=255u8 { for b in (0..=255u8).step_by(5) { vs.push((a, b, [0u8, 1, 255][(a as usize + b as usize) % 3])); } } for b in 0..=255u8 { for p in [0u8, 1, 255] { vs.push((3, b, p)); } } }
     for (k, v) in vs.into_iter().enumerate() {
         if v.0 == 0 && v.1 == 0 { continue; }
-        let mut r = simple(v, &[(0, 0, 2), (2, 1, 14)], 1 + k % 2, &[], rng); if k % 3 == 0 { r.metadata = None; }
+        let mut r = simple(v, &[(0, 0, 2), (2, 1, 14)], k % 3, &[], rng); if k % 4 == 0 { r.metadata = None; } // zero frames included: the .slpp writer has no frames.arrow then
         let b = encode(&r);
         let exp_refuse = v > MAXV;
-        let mut c = Case::new(format!("rt {}", hex(&b)), String::new()); c.tags = vec![format!("refuse{}", exp_refuse as u8), if v.0 == 3 && (15..=17).contains(&v.1) { "boundary".into() } else { "far".into() }];
+        let mut c = Case::new(format!("rt {}", hex(&b)), String::new()); c.tags = vec![format!("refuse{}", exp_refuse as u8), format!("frames{}", k % 3), if v.0 == 3 && (15..=17).contains(&v.1) { "boundary".into() } else { "far".into() }];
         let (l, g) = read_line(&b, false, false);
         match g { None => { c.impl_out = l; }
             Some(g) => { let w = write_slp(&g);
@@ -361,7 +366,7 @@ fn completed_prefix_ok(st: &slippi::de::ParseState, g: &Game, upto: usize) -> Re
 
 fn inc(rng: &mut Rng, ctx: &mut Ctx) {
     use peppi::game::Game as _;
-    let go = GenOpts { max_frames: if ctx.thorough { 14 } else { 6 }, newer: false };
+    let go = GenOpts { max_frames: if ctx.thorough { 14 } else { 6 }, newer: false, force: None };
     for k in 0..ctx.n {
         let (r, mut tags) = gen_replay(rng, k, &go);
         let b = encode(&r);
@@ -404,7 +409,7 @@ fn inc(rng: &mut Rng, ctx: &mut Ctx) {
 }
 
 fn frag(rng: &mut Rng, ctx: &mut Ctx) {
-    let go = GenOpts { max_frames: if ctx.thorough { 12 } else { 5 }, newer: false };
+    let go = GenOpts { max_frames: if ctx.thorough { 12 } else { 5 }, newer: false, force: None };
     for k in 0..ctx.n {
         let (r, mut tags) = gen_replay(rng, k, &go);
         let b = encode(&r);
@@ -413,7 +418,7 @@ fn frag(rng: &mut Rng, ctx: &mut Ctx) {
         let (fl, fg) = read_line(&b, skip, hash);
         let o = read_opts(skip, hash);
         let xx = format!("xxh3:{:016x}", xxhash_rust::xxh3::xxh3_64(&b));
-        let mut c = Case::new(format!("read {} {} {}", skip as u8, hash as u8, hex(&b)), String::new());
+        let mut c = Case::new(read_cmd(skip, hash, &b), String::new());
         let res = std::panic::catch_unwind(|| slippi::read(Chunked::new(b.clone(), plan.clone(), None), Some(&o)));
         match res { Err(_) => { c.impl_out = "panic".into(); c.fail("C06", "reader panicked under short reads"); }
             Ok(Err(e)) => { c.impl_out = format!("err {}", e); if fg.is_some() { c.fail("C12", format!("read fails under fragmentation {}: {}", pname, e)); c.fail("C11", "read fails under fragmentation"); } }
@@ -480,7 +485,7 @@ fn tar_entries(a: &[u8]) -> Vec<(String, Vec<u8>)> { let mut out = vec![]; for e
 fn tar_build(es: &[(String, Vec<u8>)]) -> Vec<u8> { let mut b = tar::Builder::new(vec![]); for (n, c) in es { let mut h = tar::Header::new_gnu(); h.set_size(c.len() as u64); h.set_path(n).unwrap(); h.set_mode(0o644); h.set_cksum(); b.append(&h, &c[..]).unwrap(); } b.into_inner().unwrap() }
 
 fn pread(rng: &mut Rng, ctx: &mut Ctx) {
-    let go = GenOpts { max_frames: 4, newer: false };
+    let go = GenOpts { max_frames: 4, newer: false, force: None };
     for k in 0..ctx.n {
         let (r, tags) = loop { let kk = k + (rng.next() % 3) as usize * 1000; let (r, t) = gen_replay(rng, kk, &go); if !slots_of(&r.start_block).is_empty() { break (r, t); } };
         let b = encode(&r);
@@ -533,7 +538,7 @@ fn fixtures(ctx: &mut Ctx) {
         if b.len() > 600_000 && !ctx.thorough { continue; }
         let name = p.file_name().unwrap().to_string_lossy().to_string();
         let (l, g) = read_line(&b, false, true);
-        let mut c = Case::new(format!("read 0 1 {}", hex(&b)), l.clone()); c.tags = vec![format!("fixture:{}", name)];
+        let mut c = Case::new(read_cmd(false, true, &b), l.clone()); c.tags = vec![format!("fixture:{}", name)];
         if let Some(g) = &g { check_row_view(g, &mut c); let xx = format!("xxh3:{:016x}", xxhash_rust::xxh3::xxh3_64(&b)); if g.hash.as_deref() != Some(xx.as_str()) { c.fail("C11", format!("{}: hash {:?} != {}", name, g.hash, xx)); } }
         ctx.push(c);
         if let Some(g) = &g { if g.start.slippi.version <= slippi::MAX_SUPPORTED_VERSION { let mut c = Case::new(format!("rt {}", hex(&b)), String::new()); c.tags = vec![format!("fixture-rt:{}", name)];
